@@ -7,11 +7,12 @@ OUT=/verif/seeded/$ID
 export CARGO_NET_OFFLINE=true
 cd "$WT" || exit 1
 mkdir -p "$OUT"
-git diff -- crates > "$OUT/patch.diff"
+# never use git stash here: the stash is shared by all worktrees of a repository
+cp demo/patch.diff "$OUT/patch.diff"
 [ -s "$OUT/patch.diff" ] || { echo "empty patch"; exit 1; }
-git stash -q -- crates
+git checkout -q -- crates
 bash demo/run.sh > "$OUT/demo_without.log" 2>&1; R0=$?
-git stash pop -q
+git apply "$OUT/patch.diff" || { echo "patch does not apply to its own base"; exit 1; }
 cargo test --workspace --no-fail-fast --offline > "$OUT/suite_with.log" 2>&1
 PASSED=$(grep -E "^test result" "$OUT/suite_with.log" | awk '{p+=$4; f+=$6} END {print p"/"f}')
 bash demo/run.sh > "$OUT/demo_with.log" 2>&1; R1=$?
@@ -23,7 +24,7 @@ cat > "$OUT/meta.json" <<EOM
 {"id": "$ID", "property": "$PROP", "base_commit": "$(git rev-parse --short HEAD)",
  "demo_exit_without_change": $R0, "demo_exit_with_change": $R1,
  "suite_with_change_passed_failed": "$PASSED", "applies_to_repo_head": $APPLIES,
- "ran": "git stash; demo/run.sh; git stash pop; cargo test --workspace --no-fail-fast --offline; demo/run.sh",
+ "ran": "git checkout -- crates; demo/run.sh; git apply patch.diff; cargo test --workspace --no-fail-fast --offline; demo/run.sh",
  "needs": "see NOTES.md", "caught_by": []}
 EOM
 cat "$OUT/meta.json"
